@@ -316,6 +316,33 @@ pub fn construct_sweep(rng: &mut Rng) -> Vec<Prog> {
     for _ in 0..6 { let mut g = Gen::new(rng); g.define_scalar_literal(ck); g.prog.restricted = false; out.push(g.prog); }
     for _ in 0..10 { let mut g = Gen::new(rng); g.define_scalar_literal(ck); g.define_scalar_literal(ck); g.binop(ck); g.prog.restricted = false; g.finish(); out.push(g.prog); }
   }
+  // containers of EVERY scalar element kind as the program's value (set, table column, record field, tuple item; also written as
+  // a definition followed by a bare reference): the element-kind tags inside set / table / record constants (general class)
+  for ek in ["u8", "u16", "u32", "u64", "u128", "i8", "i16", "i32", "i64", "i128", "f32", "f64", "r64", "c64", "bool", "string"] {
+    for form in 0..5 {
+      let (a, b) = (lit_scalar(ek, rng), { let mut b = lit_scalar(ek, rng); for _ in 0..4 { if b != *"" { break; } b = lit_scalar(ek, rng); } b });
+      let text = match form {
+        0 => format!("{{{}, {}}}", a, b),
+        1 => format!("|a<{}> b<u8>| {} 1u8 | {} 2u8 |", ek, a, b),
+        2 => format!("{{p: {}, q: {}}}", a, b),
+        3 => format!("({}, {}, 1)", a, b),
+        // hexadecimal / binary spellings are i64 literals
+        _ => if ek == "i64" { "{0x1F, 0b101, 7<i64>}".to_string() } else { format!("{{{}}}", a) },
+      };
+      let mut g = Gen::new(rng);
+      g.prog.restricted = false;
+      g.prog.tags.insert(format!("container-{}-{}", ["set", "table", "record", "tuple", "set1"][form], ek));
+      g.prog.stmts.push(format!("v1 := {}", text));
+      out.push(g.prog);
+      let mut g2 = Gen::new(rng);
+      g2.prog.restricted = false;
+      g2.prog.tags.insert(format!("container-bare-{}-{}", ["set", "table", "record", "tuple", "set1"][form], ek));
+      // (a bare tuple / record literal adds no plan step: the recorded finding about final bare literals)
+      if form == 2 || form == 3 { g2.prog.tags.insert("final-literal".to_string()); }
+      g2.prog.stmts.push(text);
+      out.push(g2.prog);
+    }
+  }
   for _ in 0..8 { let mut g = Gen::new(rng); g.range(); g.finish(); out.push(g.prog); }
   for _ in 0..40 { let mut g = Gen::new(rng); g.define_scalar_literal("f64"); g.define_scalar_literal("f64"); g.chain(); g.finish(); out.push(g.prog); }
   for _ in 0..30 { let mut g = Gen::new(rng); g.define_scalar_literal("f64"); g.define_scalar_literal("f64"); g.stacked(); g.finish(); out.push(g.prog); }
